@@ -61,6 +61,7 @@ fn thresholds(_t: Tier) -> Vec<(&'static str, u64)> {
 /// documents carry ids on some elements: options must behave the same
 fn with_ids(mut p: Profile) -> Profile {
     p.id_permille = 120;
+    p.lead_br = true;
     p
 }
 
